@@ -624,7 +624,7 @@ class BatcherCheck(Check):
         v = BatView(r.log, prog)
         st['batches'] += len(v.bstarts)
         res.sig = str(len(v.bstarts))
-        if r.verdict in ('deadlock', 'stepbound') or not any(e[0] == 'end' for e in r.log):
+        if r.verdict in ('deadlock', 'stepbound', 'timebound') or not any(e[0] == 'end' for e in r.log):
             if self.pid in ('C04', 'C09'):
                 res.violate(f'{self.pid}:hang', f'execution did not finish ({r.verdict})', blocked=r.blocked)
             else:
